@@ -2,6 +2,8 @@ package props
 
 import (
 	"fmt"
+	"os"
+	"os/exec"
 	"strings"
 
 	j "github.com/mfcochauxlaberge/jsonapi"
@@ -261,8 +263,38 @@ func c11Body(x *mc.Exec) {
 	}
 }
 
+// c11Conformance runs the repository's own test suite against the INSTRUMENTED
+// build under the sorted, reversed and rotated uniform map schedules: it binds
+// the rewritten map loops (the explored transition function) to the original
+// ones on everything the suite can see. A failure is an infrastructure error
+// (the instrumentation, or a test, depends on the order), never a VIOLATION.
+func c11Conformance(c *Ctx) {
+	if !Thorough() {
+		c.R.Note("conformance run of the repository suite on the instrumented build: thorough tier and setup.sh only")
+		return
+	}
+	ov := os.Getenv("VERIF_OVERLAY_DIR")
+	if ov == "" {
+		c.R.Note("conformance run skipped: VERIF_OVERLAY_DIR not set")
+		return
+	}
+	for _, mode := range []string{"", "reverse", "rotate"} {
+		cmd := exec.Command("go", "test", "-vet=off", "-count=1", "-overlay", ov+"/full.json", "./...")
+		cmd.Dir = "/repo"
+		cmd.Env = append(os.Environ(), "VERIF_MC_UNIFORM="+mode)
+		out, err := cmd.CombinedOutput()
+		c.R.Add("conformance_suite_runs", 1)
+		if err != nil {
+			c.R.InfraError("repository suite fails on the instrumented build under the %q schedule: %v\n%s", mode, err, firstLines(string(out), 30))
+			return
+		}
+	}
+	c.R.Note("conformance: the repository's own suite passes on the instrumented build under the sorted, reversed and rotated map schedules")
+}
+
 func init() {
 	Register(&Prop{
+		Post: c11Conformance,
 		ID: "C11",
 		Rule: "Engine A over 8 base (document, URL) pairs (soft / wrapped single resource with 3 included of mixed implementations, Resources / SoftCollection / WrapperCollection, errors with links/source/meta maps, identifiers + nested meta + links map, names needing escapes): (i) map schedules: the iteration order of EVERY instrumented map-range loop instance met while marshaling (all n! orders for n <= 4 keys, reversal/rotations/adjacent swaps above) is an environment choice; all executions with <= 1 (thorough 2) deviating loop instances, plus the uniform reversed and rotated schedules; (ii) all orders of a 3-id to-many list, of a 4-name field selection, of the relationship-data list and of a 3-element included list with distinct ids; (iii) three marshals in a row on the same objects. Oracle: byte-identical output everywhere; everything later readable from the resources and the URL (modulo the three exempted orders) unchanged. Non-trivial = execution with at least one deviating loop / a non-default permutation",
 		Assumptions: []string{"the repository suite passing under the instrumented build (sorted, reversed, rotated schedules) binds the rewritten loops to the original ones"},
